@@ -19,6 +19,14 @@ for a in args:
         shutil.copy(src / "patch.diff", Path(t) / f"patch{k}.diff")
         shutil.copy(src / "demo.py", Path(t) / f"demo{k}.py")
         meta = json.load(open(src / "meta.json"))
+        old = meta.get("confirmation") or {}
+        if old:
+            h = meta.get("history")
+            if not isinstance(h, list):
+                h = [] if not h else [h]
+            h.append({"caught" if "caught" in old else "alarm": old.get("caught", old.get("alarm")),
+                      "checks": {c: (v.get("exit"), (v.get("lines") or [""])[0][-40:]) for c, v in (old.get("checks") or {}).items()}})
+            meta["history"] = h
         for key in ("confirmation", "what_i_ran", "breaks_property", "kind"):
             meta.pop(key, None)
         json.dump(meta, open(Path(t) / f"meta{k}.json", "w"))
